@@ -233,12 +233,22 @@ def setup(tier):
     return ref, prefs, owners, bases, names
 
 
-def gen(ref, prefs, bases, names, k):
+def gen(ref, prefs, bases, names, k, owners=None):
+    for s0 in ("*", ">", "**", "?", ""):
+        for c in names:
+            yield s0, c
     for c, typ, toks in bases:
         pr = prefs[c]
         root = pr.root()
         other = [prefs[n].root() for n in names if n != c][0] if len(names) > 1 else "/other/"
         yield join(toks), c
+        # "paths" that conform to no path template but read as Sid syntax: the Sid string itself, its uri, a query
+        uri = (owners or {}).get((c, join(toks)))
+        if uri:
+            t0, s0 = uri.split(":", 1)
+            d0 = ref.forced(s0, t0) or {}
+            for fake in (s0, uri, "?" + "&".join(f"{a}={b}" for a, b in d0.items()), s0 + "?x=y", ":" + s0):
+                yield fake, c
         singles = list(single_edits(ref, pr, typ, toks, root, other))
         for p in singles:
             yield p, c
@@ -286,7 +296,7 @@ def run_shard(sh):
     touch_first(sh.get("first"))
     rec = Recorder(sh["index"], sh["count"], sh["seed"])
     k = 1 if sh["tier"] == "c20" else 2
-    for p, c in gen(ref, prefs, bases, names, k):
+    for p, c in gen(ref, prefs, bases, names, k, owners):
         p = encode(prefs, p)
         if not rec.mine(c + "|" + p):
             continue
